@@ -214,6 +214,8 @@ def lexNumber (cs : List Char) : Option ((Nat × Int) × List Char) :=
             if intDs.head? == some 0 && v ≠ 0 then none
             else some ((v, 0), r3)
 
+def isBlank (c : Char) : Bool := c = ' ' || c = '\t' || c.toNat = 12
+
 def takeName : List Char → List Char → List Char × List Char
   | [], acc => (acc.reverse, [])
   | c :: cs, acc => if isIdCont c then takeName cs (c :: acc) else (acc.reverse, c :: cs)
@@ -234,7 +236,15 @@ def lex : Nat → Nat → List Char → Except PErr (List Tok)
     else if c = '*' then
       match cs with
       | '*' :: cs' => (lex fuel depth cs').map (Tok.dstar :: ·)
-      | _ => (lex fuel depth cs).map (Tok.star :: ·)
+      | _ =>
+        -- `untokenize` glues neighbouring operator tokens back together, so `* *` (blanks, but
+        -- no line break, in between) is read as `**`
+        match cs.dropWhile isBlank with
+        | '*' :: cs' =>
+          (match cs' with
+           | '*' :: _ => (lex fuel depth cs).map (Tok.star :: ·)        -- `* **` is `***`: refused by the parser anyway
+           | _ => (lex fuel depth cs').map (Tok.dstar :: ·))
+        | _ => (lex fuel depth cs).map (Tok.star :: ·)
     else if c = '/' then (lex fuel depth cs).map (Tok.slash :: ·)
     else if c = '-' then (lex fuel depth cs).map (Tok.minus :: ·)
     else if c = '+' then (lex fuel depth cs).map (Tok.plus :: ·)
@@ -250,20 +260,13 @@ def lex : Nat → Nat → List Char → Except PErr (List Tok)
       (lex fuel depth rest).map (Tok.name nm :: ·)
     else .error .unitParseError
 
-/-- `untokenize` glues neighbouring operator tokens back together, so `* *` is read as `**`
-    (and `/ /` as `//`, which the parser below rejects like any other doubled operator) -/
-def mergeStars : List Tok → List Tok
-  | .star :: .star :: r => .dstar :: mergeStars r
-  | t :: r => t :: mergeStars r
-  | [] => []
-
 def maxDepth : List Tok → Nat → Nat → Nat
   | [], _, m => m
   | .lpar :: r, d, m => maxDepth r (d + 1) (max m (d + 1))
   | .rpar :: r, d, m => maxDepth r (d - 1) m
   | _ :: r, d, m => maxDepth r d m
 
-/-- string → tokens: strip, tokenize, re-glue.  Beyond 100 nested parentheses or 600 tokens
+/-- string → tokens: strip, tokenize.  Beyond 100 nested parentheses or 600 tokens
     CPython's own limits come into play (200 levels, recursion limit) — not modelled. -/
 def tokenize (cs : List Char) : Except PErr (List Tok) :=
   let s := pyStrip cs
@@ -271,7 +274,7 @@ def tokenize (cs : List Char) : Except PErr (List Tok) :=
   | .error e => .error e
   | .ok ts =>
     if ts.length > 600 || maxDepth ts 0 0 > 100 then .error .unmodelled
-    else .ok (mergeStars ts)
+    else .ok ts
 
 /-! ### syntax: Python's expression grammar restricted to the vocabulary
 
@@ -348,7 +351,7 @@ end
 
 /-- the whole token list must be one `term` -/
 def parseTokens (ts : List Tok) : Option PExpr :=
-  match pTerm (4 * ts.length + 8) ts with
+  match pTerm (4 * ts.length + 40) ts with
   | some (e, []) => some e
   | _ => none
 
